@@ -543,40 +543,7 @@ func cloneForFinalise(b *gen.Block, n *node.Node) *gen.Block {
 	return &gen.Block{B: &core.Block{Header: &h, Transactions: b.B.Transactions, Receipts: b.B.Receipts}, SU: &su, Classes: b.Classes}
 }
 
-func diffFp(d *core.StateDiff) string {
-	s := ""
-	addrs := make([]felt.Felt, 0)
-	for a := range d.StorageDiffs {
-		addrs = append(addrs, a)
-	}
-	sort.Slice(addrs, func(i, j int) bool { return addrs[i].Cmp(&addrs[j]) < 0 })
-	for _, a := range addrs {
-		ks := make([]felt.Felt, 0)
-		for k := range d.StorageDiffs[a] {
-			ks = append(ks, k)
-		}
-		sort.Slice(ks, func(i, j int) bool { return ks[i].Cmp(&ks[j]) < 0 })
-		s += "S[" + a.ShortString() + ":"
-		for _, k := range ks {
-			s += k.ShortString() + "=" + d.StorageDiffs[a][k].ShortString() + ","
-		}
-		s += "]"
-	}
-	s += fmt.Sprintf(" N%d D%d R%d C0:%d C1:%d M%d", len(d.Nonces), len(d.DeployedContracts), len(d.ReplacedClasses), len(d.DeclaredV0Classes), len(d.DeclaredV1Classes), len(d.MigratedClasses))
-	for _, m := range []map[felt.Felt]*felt.Felt{d.Nonces, d.DeployedContracts, d.ReplacedClasses, d.DeclaredV1Classes} {
-		ks := make([]felt.Felt, 0)
-		for k := range m {
-			ks = append(ks, k)
-		}
-		sort.Slice(ks, func(i, j int) bool { return ks[i].Cmp(&ks[j]) < 0 })
-		s += "{"
-		for _, k := range ks {
-			s += k.ShortString() + ":" + m[k].ShortString() + ","
-		}
-		s += "}"
-	}
-	return s
-}
+func diffFp(d *core.StateDiff) string { return gen.DiffString(d) }
 
 // ---------------------------------------------------------------------------------------------
 // (d) temporary tries used for block commitments: both backends vs reference (height 64)
